@@ -498,8 +498,7 @@ def c14_convert(work, prop, tier, seed):
     memory store: nothing below the directory changes and tags, manifests and blobs are still served (TraceConvert, Focus C14)."""
     vh = vlib.build_harness(work)
     res, layouts, lf = convert_layouts(work)
-    mod = 48 if tier == "quick" else 6
-    v, (nlay, events, images), dt, tw = convert_run(work, vh, lf, "c14", mod, seed % mod, "dirro,memdir", False, seed, "C14")
+    v, (nlay, events, images), dt, tw = convert_run(work, vh, lf, "c14", 1, 0, "dirro,memdir", False, seed, "C14", pick=40 if tier == "quick" else 4)
     log("convert layouts: %d of %d layouts on dirro and memdir, %d events, %d failures (exec %.1fs, tlc %.1fs)" % (nlay, len(layouts), events, len(v["fails"]), dt, tw))
     violations, seen = [], set()
     for f in v["fails"]:
@@ -1051,11 +1050,11 @@ CHECKS["C09"] = c09
 
 # --------------------------------------------------------------------------- C17: conversion of fallback tag referrers
 
-def convert_run(work, vhx, lf, name, mod, rem, stores, crash, seed, focus):
+def convert_run(work, vhx, lf, name, mod, rem, stores, crash, seed, focus, pick=1):
     """One shard: harness over the selected layouts, then TraceConvert. Returns (verdict, harness counts, tlc wall)."""
     import re
     tf = work.path("cv-trace-%s.ndjson" % name)
-    cmd = [vhx, "convert", "-layouts", lf, "-o", tf, "-stores", stores, "-seed", str(seed), "-mod", str(mod), "-rem", str(rem)]
+    cmd = [vhx, "convert", "-layouts", lf, "-o", tf, "-stores", stores, "-seed", str(seed), "-mod", str(mod), "-rem", str(rem), "-pick", str(pick)]
     if crash:
         cmd.append("-crash")
     rc, out, dt = vlib.run(cmd, timeout=6000, check=False, env=dict(os.environ, TMPDIR=work.sub("roots-" + name)))
@@ -1094,12 +1093,10 @@ def c17(prop, tier, seed, work):
     ovf, counts = rewrite_vfs(work)
     vhx = vlib.build_harness(work, tags="verif vfs", overlay=ovf)
     res, layouts, lf = convert_layouts(work)
-    if quick:
-        shards = [(36, (seed * 7 + i * 13) % 36) for i in range(2)]
-    else:
-        shards = [(12, i) for i in range(12)]
+    # quick: a seeded pseudo random 1/16 of the layouts (in 4 shards); thorough: all of them (12 shards)
+    shards = [(4, i) for i in range(4)] if quick else [(12, i) for i in range(12)]
     with ThreadPoolExecutor(max_workers=6) as ex:
-        outs = list(ex.map(lambda s: convert_run(work, vhx, lf, "%d-%d" % s, s[0], s[1], "dir,memdir", True, seed, "C17"), shards))
+        outs = list(ex.map(lambda s: convert_run(work, vhx, lf, "%d-%d" % s, s[0], s[1], "dir,memdir", True, seed, "C17", pick=16 if quick else 1), shards))
     fails, nlay, events, images = [], 0, 0, 0
     for v, (a, b, c), dt, tw in outs:
         fails += v["fails"]
